@@ -1,5 +1,11 @@
 import Ufw.Props.C16
 import Ufw.Tie.Misc
+import Ufw.Tie.CrcLoops.Octet
+import Ufw.Tie.CrcLoops.Arc
+import Ufw.Tie.CrcLoops.Buffer
+import Ufw.Tie.CrcLoops.ArcU16
+import Ufw.Tie.CrcLoops.BufferU16
+import Ufw.Tie.CrcLoops.EndToEnd
 #print axioms Ufw.Props.C16.octet_eq_bitwise
 #print axioms Ufw.Props.C16.crc_eq_spec
 #print axioms Ufw.Props.C16.buffer_crc_eq_spec
@@ -8,3 +14,21 @@ import Ufw.Tie.Misc
 #print axioms Ufw.Tie.Misc.const_ssize_max
 #print axioms Ufw.Tie.Misc.const_crc_initial
 #print axioms Ufw.Tie.Misc.const_lenp_kinds
+#print axioms Ufw.Tie.CrcLoops.table_eq
+#print axioms Ufw.Tie.CrcLoops.index_eq
+#print axioms Ufw.Tie.CrcLoops.index_lt
+#print axioms Ufw.Tie.CrcLoops.combine_eq
+#print axioms Ufw.Tie.CrcLoops.sx0
+#print axioms Ufw.Tie.CrcLoops.gen_crc16_octet
+#print axioms Ufw.Tie.CrcLoops.loop1_spec
+#print axioms Ufw.Tie.CrcLoops.gen_ufw_crc16_arc
+#print axioms Ufw.Tie.CrcLoops.gen_ufw_crc16_arc_oob
+#print axioms Ufw.Tie.CrcLoops.gen_ufw_buffer_crc16_arc
+#print axioms Ufw.Tie.CrcLoops.low_eq
+#print axioms Ufw.Tie.CrcLoops.high_eq
+#print axioms Ufw.Tie.CrcLoops.loop1_u16_spec
+#print axioms Ufw.Tie.CrcLoops.gen_ufw_crc16_arc_u16
+#print axioms Ufw.Tie.CrcLoops.gen_ufw_buffer_crc16_arc_u16
+#print axioms Ufw.Tie.CrcLoops.c_crc_eq_spec
+#print axioms Ufw.Tie.CrcLoops.c_crc_append
+#print axioms Ufw.Tie.CrcLoops.c_crc_u16_eq_octets
